@@ -147,10 +147,11 @@ func mkSub(client, full string, variant int) refmodel.Sub {
 }
 
 type checker struct {
-	r    *monitor.Run
-	u    universe
-	fac  Factory
-	hist []op
+	r      *monitor.Run
+	u      universe
+	fac    Factory
+	hist   []op
+	shared bool // C11(a): also compare the shared-subscription lookups
 }
 
 func (c *checker) violation(kind string, detail string, got, want string) {
@@ -200,6 +201,46 @@ func (c *checker) checkAll(st subscription.Store, m *refmodel.SubTable, usedFilt
 			gotc := refmodel.Canon(collect(st, subscription.IterationOptions{Type: subscription.TypeNonShared | subscription.TypeSYS, ClientID: cl, TopicName: name, MatchType: subscription.MatchFilter}))
 			if gotc != wantc {
 				c.violation("lookup.match_filter_client", "topic="+name+" client="+cl, gotc, wantc)
+			}
+		}
+	}
+	if c.shared {
+		isShared := func(s refmodel.Sub) bool { return s.Share != "" }
+		for _, name := range c.u.probes {
+			want := refmodel.Canon(m.Matching(name, isShared))
+			got := refmodel.Canon(collect(st, subscription.IterationOptions{Type: subscription.TypeShared, TopicName: name, MatchType: subscription.MatchFilter}))
+			if got != want {
+				kind := "shared.match_filter"
+				if strings.HasPrefix(name, "$") {
+					kind = "shared.match_filter_sys_topic"
+				}
+				c.violation(kind, "topic="+name, got, want)
+			}
+			// what deliverMessage uses: TypeAll
+			var sh []refmodel.Sub
+			for _, s := range collect(st, subscription.IterationOptions{Type: subscription.TypeAll, TopicName: name, MatchType: subscription.MatchFilter}) {
+				if s.Share != "" {
+					sh = append(sh, s)
+				}
+			}
+			if g := refmodel.Canon(sh); g != want {
+				kind := "shared.match_filter_typeall"
+				if strings.HasPrefix(name, "$") {
+					kind = "shared.match_filter_typeall_sys_topic"
+				}
+				c.violation(kind, "topic="+name, g, want)
+			}
+		}
+		for _, cl := range c.u.clients {
+			var want []refmodel.Sub
+			for _, s := range m.T[cl] {
+				if s.Share != "" {
+					want = append(want, s)
+				}
+			}
+			got := collect(st, subscription.IterationOptions{Type: subscription.TypeShared, ClientID: cl})
+			if g, w := refmodel.Canon(got), refmodel.Canon(want); g != w {
+				c.violation("shared.by_client", "client="+cl, g, w)
 			}
 		}
 	}
@@ -553,4 +594,84 @@ func filterShape(f string) string {
 		}
 	}
 	return strings.Join(lv, "/")
+}
+
+
+// RunSharedStore is part (a) of C11: histories of joins and leaves of share groups
+// (many clients, many groups, overlapping filters, the same client in several
+// groups on one filter, groups coexisting with non-shared subscriptions).
+func RunSharedStore(r *monitor.Run) {
+	facs := []Factory{{Name: "mem", New: func() (subscription.Store, func(), error) {
+		s := mem.NewStore()
+		return s, func() { _ = s.Close() }, nil
+	}}}
+	facs = append(facs, ExtraFactories...)
+	big := bigUniverse()
+	// shared universe: few plain filters, each also in groups g1..g3
+	var plain []string
+	for _, f := range big.filters {
+		if !strings.HasPrefix(f, "$share/") {
+			plain = append(plain, f)
+		}
+	}
+	for _, fac := range facs {
+		n := r.Pick(400, 30000)
+		if fac.Name != "mem" {
+			n = r.Pick(60, 3000)
+		}
+		rng := r.Rand("shared-" + fac.Name)
+		for i := 0; i < n; i++ {
+			u := universe{clients: []string{"c1", "c2", "c3", "c4", "c5"}, probes: big.probes}
+			k := 2 + rng.Intn(4)
+			for j := 0; j < k; j++ {
+				f := plain[rng.Intn(len(plain))]
+				u.filters = append(u.filters, f)
+				for _, g := range []string{"g1", "g2", "g3"}[:1+rng.Intn(3)] {
+					u.filters = append(u.filters, "$share/"+g+"/"+f)
+				}
+			}
+			c := &checker{r: r, u: u, fac: fac, shared: true}
+			ops := sharedHistory(rng, u, 5+rng.Intn(r.Pick(40, 80)))
+			states := c.runHistory(ops, true)
+			r.Eval(1)
+			r.Count("store_histories_"+fac.Name, 1)
+			r.Count("store_operations", int64(len(ops)))
+			for _, s := range states {
+				r.Distinct("store_model_states", s)
+			}
+			r.Nontrivial("sharedstore|" + fac.Name + "|" + fmt.Sprint(i) + "|" + fmt.Sprint(len(states)))
+			if i == 0 {
+				hs := []string{}
+				for _, o := range ops[:min(8, len(ops))] {
+					hs = append(hs, o.String())
+				}
+				r.Sample(map[string]any{"store": fac.Name, "store_history_prefix": hs})
+			}
+		}
+	}
+}
+
+func sharedHistory(rng *rand.Rand, u universe, n int) []op {
+	ops := make([]op, 0, n)
+	for i := 0; i < n; i++ {
+		cl := u.clients[rng.Intn(len(u.clients))]
+		switch x := rng.Intn(10); {
+		case x < 6:
+			o := op{Kind: "sub", Client: cl}
+			seen := map[string]bool{}
+			for j := 0; j < 1+rng.Intn(3); j++ {
+				f := u.filters[rng.Intn(len(u.filters))]
+				if !seen[f] {
+					seen[f] = true
+					o.Subs = append(o.Subs, mkSub(cl, f, rng.Intn(36)))
+				}
+			}
+			ops = append(ops, o)
+		case x < 9:
+			ops = append(ops, op{Kind: "unsub", Client: cl, Topics: []string{u.filters[rng.Intn(len(u.filters))]}})
+		default:
+			ops = append(ops, op{Kind: "unsuball", Client: cl})
+		}
+	}
+	return ops
 }
